@@ -269,6 +269,9 @@ class JobServerSemaphore:
             while self.__waitersCnt:
                 self.__tokens.append(os.read(self.__fds[0], 1))
                 self.__waitersCnt -= 1
+                # The slot is accounted here and not when the waiter resumes.
+                # Otherwise another task could see a too small count in between.
+                self.__acquired += 1
                 self.__sem.release()
         except BlockingIOError:
             pass
@@ -288,7 +291,8 @@ class JobServerSemaphore:
                     JobServerSemaphore.jobavailableCallback, self)
             self.__waitersCnt += 1
             await self.__sem.acquire()
-            pass
+            # Slot was already accounted by whoever woke us up.
+            return
         self.__acquired += 1
 
     async def __aenter__(self):
@@ -299,6 +303,8 @@ class JobServerSemaphore:
         if self.__acquired == 0:
             raise ValueError ("BoundedSemaphore released too many times")
         if self.__waitersCnt != 0:
+           # Hand over our slot to the waiter. The number of acquired slots
+           # does not change.
            self.__waitersCnt -= 1;
            self.__sem.release()
            if self.__waitersCnt == 0:
@@ -306,7 +312,7 @@ class JobServerSemaphore:
         else:
             if not self.__recursive or self.__acquired > 1:
                 os.write(self.__fds[1], self.__tokens.pop())
-        self.__acquired -= 1
+            self.__acquired -= 1
 
     async def __aexit__(self, exc_type, exc, tb):
         self.release()
